@@ -456,6 +456,17 @@ func runCheck(ctx *Ctx, ck *Check, auditPath, factsStatus, evidencePath string) 
 		compared += derivedCompared
 		agree += derivedAgree
 	}
+	// the traced effect shapes of C15/C16 were compared with the Lean effect-order model inside runCrashCases
+	if n := histStats["effect_shapes_compared_with_model"]; n > 0 {
+		bad := 0
+		for _, f := range findings {
+			if strings.HasSuffix(f.Sig, "/model=impl/eff.shape") {
+				bad++
+			}
+		}
+		compared += n
+		agree += n - bad
+	}
 
 	// proof obligations
 	audit := parseAudit(auditPath)
